@@ -4,7 +4,7 @@ From Coq Require Import NArith List Bool.
 From Falcon Require Import Base.Res Graph.NMap Graph.NMapFacts Graph.Graph Graph.GraphInv Graph.Algo Graph.Spec
   Graph.Oracle Graph.OracleProofs Graph.ReachProofs Graph.C11Check Graph.SemiNca3 Graph.Small3 Graph.DomTheory
   Graph.OrderProofs Graph.LoopProofs Graph.BackEdges Graph.PreOrderProofs Graph.DomTreeProofs Graph.ClosureTotal Graph.IdomExists Graph.PreOrderDfs
-  Graph.DomModel Graph.FrontierModel Graph.Unreachable Graph.TopoProofs Graph.AcyclicProofs Graph.PostOrderProofs Graph.ReducibleModel Graph.PreOrderIsDfs Graph.LoopModel Graph.LoopTreeModel.
+  Graph.DomModel Graph.FrontierModel Graph.Unreachable Graph.TopoProofs Graph.AcyclicProofs Graph.PostOrderProofs Graph.ReducibleModel Graph.PreOrderIsDfs Graph.LoopModel Graph.LoopTreeModel Graph.TransPredsModel.
 Import ListNotations.
 Local Open Scope N_scope.
 
@@ -356,3 +356,13 @@ Theorem compute_loop_tree_correct : forall (V E : Type) (HV : Vertex V) (HE : Ed
     (forall a b, has_edge t a b = true <-> loop_nested (edge_keys g) r a b).
 Proof. intros V E HV HE g r m Hgi Hr. exact (LoopTreeModel.compute_loop_tree_correct g Hgi r Hr m). Qed.
 Print Assumptions compute_loop_tree_correct.
+
+(* [U] transitive_preds_correct for the MODEL function (work list, fuel |V|^2+|V|+2): every vertex is a key and p is
+   in the set of v exactly when there is a non-empty walk p ->+ v *)
+Theorem transitive_preds_correct : forall (V E : Type) (HV : Vertex V) (HE : Edge E) (g : graph V E),
+  GraphInv.graph_inv g ->
+  exists P, compute_predecessors g = Ok P /\ nsorted (map fst P) /\
+    (forall v, nm_mem v P = has_vertex g v) /\
+    (forall v s, nm_get v P = Some s -> forall p, In p s <-> trans_pred (edge_keys g) p v).
+Proof. intros V E HV HE g Hgi. exact (TransPredsModel.compute_predecessors_correct g Hgi). Qed.
+Print Assumptions transitive_preds_correct.
